@@ -15,7 +15,11 @@
 //                            em<s> | tk<s> | tr<s> | fr<k> | fe   (box; s = board slot, k = index in the held list)
 //   after  per thread the threads that are joined before it is created (generations)
 //   nb     board slots (box); set-up item i is posted at board slot i
-//   dn     number of versions in the value dictionary (see below)
+//   dn     number of versions in the value dictionary (see below); db: further version bases the dictionary covers
+//
+// white-box operation  adv<k>  (ids, box): the version tag of the allocator's free-list head jumps by k, atomically
+// with the call event -- the equivalent of k allocate/deallocate rounds on other values, used to reach version
+// distances like 2^16 without running 65536 rounds.
 //
 // 64-bit head values do not fit TLC integers and are interned by vsched; at the end of an execution
 // the driver stores every candidate (version, value) pair into a dummy atomic, preceded by a "dict"
@@ -87,14 +91,18 @@ std::string vals_json(const std::vector<long>& v) {
 // ---- value dictionary --------------------------------------------------------------------------
 std::atomic<uint64_t> g_dict {0};
 
-void emit_dict(int nval, int nver) {
+void emit_dict(int nval, int nver, const std::vector<int>& bases = {}) {
   vsched::name_loc(&g_dict, sizeof(g_dict), "dict");
-  for (int ver = 0; ver < nver; ver++) {
+  std::vector<long> vers;
+  for (int ver = 0; ver < nver; ver++) vers.push_back(ver);
+  for (int b : bases)
+    for (long ver = std::max(0, b - 2); ver < (long)b + nver; ver++) vers.push_back(ver);
+  for (long ver : vers) {
     for (int val = -2; val < nval; val++) {
       uint64_t lo = val == -1 ? 0xFFFFFFFFull : val == -2 ? 0xFFFFFFFEull : (uint64_t)val;
       uint64_t x = ((uint64_t)ver << 32) | lo;
       if (x < 2000000000ull) continue;
-      vsched::eventf(false, "\"k\":\"dict\",\"hi\":%d,\"lo\":%d", ver, val);
+      vsched::eventf(false, "\"k\":\"dict\",\"hi\":%ld,\"lo\":%d", ver, val);
       g_dict.store(x, std::memory_order_relaxed);
     }
   }
@@ -124,6 +132,16 @@ void name_allocator(A& alloc, T*) {
   vsched::name_loc(&alloc._free_head, sizeof(alloc._free_head), "head");
   vsched::name_loc(&alloc._free_next_value._block_table, sizeof(alloc._free_next_value._block_table), "ftab");
   vsched::name_array(&alloc._free_next_value.ensure(0), sizeof(std::atomic<T>), 128, "fnext");
+}
+
+// white-box: the head's version tag jumps by k (atomically with the call event: no schedule point in between)
+template <typename A>
+void do_adv(A& alloc, int k) {
+  vsched::event("\"k\":\"sp\"", true);
+  alloc._free_head.version += (uint32_t)k;
+  vsched::eventf(false, "\"k\":\"call\",\"op\":\"adv\",\"n\":%d,\"id\":%ld,\"idh\":%ld", k,
+                 alloc._free_head.value == UINT32_MAX ? -1L : (long)alloc._free_head.value, (long)alloc._free_head.version);
+  vsched::eventf(true, "\"k\":\"ret\",\"op\":\"adv\",\"n\":%d,\"id\":-1,\"idh\":0", k);
 }
 
 template <typename A>
@@ -158,6 +176,8 @@ void ids_op(Alloc32& al, std::vector<Id32>& held, const OpSpec& op) {
     vsched::eventf(true, "\"k\":\"call\",\"op\":\"de\",\"n\":%d,\"id\":%ld,\"idh\":%ld", op.n, (long)id.value, (long)id.version);
     al.deallocate(id);
     vsched::eventf(true, "\"k\":\"ret\",\"op\":\"de\",\"n\":%d,\"id\":%ld,\"idh\":%ld", op.n, (long)id.value, (long)id.version);
+  } else if (op.name == "adv") {
+    do_adv(al, op.n);
   } else if (op.name == "fe") {
     vsched::eventf(true, "\"k\":\"call\",\"op\":\"fe\",\"n\":0,\"id\":-1,\"idh\":0");
     auto vals = do_for_each([&](auto&& cb) { al.for_each(cb); });
@@ -187,7 +207,7 @@ void scenario_ids(const vrun::Params& p) {
   });
   auto vals = do_for_each([&](auto&& cb) { al.for_each(cb); });
   vsched::eventf(false, "\"k\":\"final\",\"vals\":%s,\"end\":%ld", vals_json(vals).c_str(), (long)al.end());
-  emit_dict((int)p.get("dv", 8), (int)p.get("dn", 16));
+  emit_dict((int)p.get("dv", 8), (int)p.get("dn", 16), int_list(p.str("db", "x")));
   vsched::finish();
 }
 
@@ -304,6 +324,8 @@ void box_op(BoxCtx& c, size_t t, int opi, std::vector<Id32>& held, const OpSpec&
     vsched::eventf(true, "\"k\":\"call\",\"op\":\"fr\",\"n\":%d,\"id\":%ld,\"idh\":%ld", op.n, (long)id.value, (long)id.version);
     box.finish_released(id);
     vsched::eventf(true, "\"k\":\"ret\",\"op\":\"fr\",\"n\":%d,\"id\":%ld,\"idh\":%ld", op.n, (long)id.value, (long)id.version);
+  } else if (op.name == "adv") {
+    do_adv(box._slot_id_allocator, op.n);
   } else if (op.name == "fe") {
     vsched::eventf(true, "\"k\":\"call\",\"op\":\"fe\",\"n\":0,\"id\":-1,\"idh\":0");
     auto vals = do_for_each([&](auto&& cb) { box._slot_id_allocator.for_each(cb); });
@@ -346,7 +368,7 @@ void scenario_box(const vrun::Params& p) {
   });
   auto vals = do_for_each([&](auto&& cb) { box._slot_id_allocator.for_each(cb); });
   vsched::eventf(false, "\"k\":\"final\",\"vals\":%s,\"end\":%ld", vals_json(vals).c_str(), (long)box._slot_id_allocator.end());
-  emit_dict((int)p.get("dv", 8), (int)p.get("dn", 16));
+  emit_dict((int)p.get("dv", 8), (int)p.get("dn", 16), int_list(p.str("db", "x")));
   vsched::finish();
 }
 
